@@ -58,7 +58,7 @@ func modelTest() modelTestResult {
 		rl := filepath.Join(scratch, "p", fmt.Sprintf("mtrace.%d", n))
 		os.MkdirAll(filepath.Join(scratch, "p"), 0o755)
 		e := append(os.Environ(), fmt.Sprintf("GOMAXPROCS=%d", gmp), "GORACE=log_path="+rl+" halt_on_error=0 exitcode=0 atexit_sleep_ms=0", "MODELTEST_RACELOG="+rl, "GODEBUG=")
-		out, _ := run(scratch, e, 5*time.Minute, bins[build], args...)
+		out, _ := run(scratch, e, 90*time.Second, bins[build], args...)
 		ms, _ := filepath.Glob(rl + ".*")
 		for _, m := range ms {
 			os.Remove(m)
